@@ -25,7 +25,12 @@ T = "MetadorModel.C01."
 THEOREMS = []  # filled in below (kept in one place with Props/C01.lean)
 LEAN = dict(
     modules=["MetadorModel.Props.C01"],
-    theorems=[T + n for n in ["view_newPatch", "view_snoc", "view_fold"]],
+    theorems=[T + n for n in [
+        "view_newPatch", "view_snoc", "view_fold",
+        "step_refines", "step_refines_statement_holds", "step_outcome_agrees", "inv_preserved", "rep_exists", "init_inv_rep",
+        "run_refines", "run_refines_from", "spec_run_ignores_boundaries",
+        "deleted_never_reappears", "visible_stays", "created_never_hidden", "created_group_never_hidden",
+        "replaced_never_reappears", "replaced_by_dataset_never_reappears", "legacy_scan_not_transparent"]],
     drivers=["drv_ov"],
 )
 
@@ -36,31 +41,70 @@ def hx(s):
     return s.encode().hex() if s else "-"
 
 
+_PLAIN = set("abcdefghijklmnopqrstuvwxyzABCDEFGHIJKLMNOPQRSTUVWXYZ0123456789")
+
+
 def dec(tok):
+    """value token -> Python / numpy value. Token classes (all from the driver's token alphabet):
+    i<int> int64 scalar, u<int> uint8 scalar, b0/b1 bool, s<alnum text> string, h<hex> string of
+    arbitrary characters (also empty), a<i.j.k> 1-d int64 array, m<i.j_k.l> 2-d int64 array,
+    v<hex> opaque scalar np.void(bytes) (any width >= 1), w<hex.hex> 1-d array of one-byte opaque
+    values, e HDF5 null-dataspace value (h5py.Empty). The exact IH5 deletion marker v7f is refused by
+    IH5 on purpose (property C17) and is never generated."""
     import numpy as np
 
     if tok[0] == "i":
         return int(tok[1:])
+    if tok[0] == "u":
+        return np.uint8(int(tok[1:]))
+    if tok in ("b0", "b1"):
+        return tok == "b1"
     if tok[0] == "s":
         return tok[1:]
+    if tok[0] == "h":
+        return bytes.fromhex(tok[1:]).decode()
     if tok[0] == "a":
         return np.array([int(x) for x in tok[1:].split(".")], dtype="int64")
+    if tok[0] == "m":
+        return np.array([[int(x) for x in row.split(".")] for row in tok[1:].split("_")], dtype="int64")
+    if tok[0] == "v":
+        return np.void(bytes.fromhex(tok[1:]))
+    if tok[0] == "w":
+        return np.array([np.void(bytes.fromhex(x)) for x in tok[1:].split(".")])
+    if tok == "e":
+        import h5py
+
+        return h5py.Empty("f")
     raise ValueError(tok)
 
 
 def enc(x):
+    """inverse of `dec` on everything `dec` produces (as read back from HDF5); anything else becomes
+    a `?…` token, which no model value equals"""
+    import h5py
     import numpy as np
 
-    if isinstance(x, (bytes, np.bytes_)):
-        return "s" + bytes(x).decode()
-    if isinstance(x, str):
-        return "s" + x
+    if isinstance(x, (bytes, np.bytes_, str)):
+        t = bytes(x).decode() if isinstance(x, (bytes, np.bytes_)) else str(x)
+        return "s" + t if t and set(t) <= _PLAIN else "h" + t.encode().hex()
     if isinstance(x, (np.bool_, bool)):
-        return "?bool"
+        return "b1" if x else "b0"
+    if isinstance(x, np.uint8):
+        return "u%d" % int(x)
+    if isinstance(x, np.integer) and x.dtype != np.dtype("int64"):
+        return "?" + x.dtype.name
     if isinstance(x, (int, np.integer)):
         return "i%d" % int(x)
-    if isinstance(x, np.ndarray) and x.dtype.kind == "i" and x.ndim == 1:
+    if isinstance(x, np.void):
+        return "v" + x.tobytes().hex() if x.dtype.names is None and x.dtype.itemsize >= 1 else "?void"
+    if isinstance(x, np.ndarray) and x.dtype == np.dtype("int64") and x.ndim == 1 and x.size:
         return "a" + ".".join(str(int(v)) for v in x)
+    if isinstance(x, np.ndarray) and x.dtype == np.dtype("int64") and x.ndim == 2 and x.size:
+        return "m" + "_".join(".".join(str(int(v)) for v in row) for row in x)
+    if isinstance(x, np.ndarray) and x.dtype == np.dtype("V1") and x.ndim == 1 and x.size:
+        return "w" + ".".join(v.tobytes().hex() for v in x)
+    if isinstance(x, h5py.Empty):
+        return "e" if x.dtype == np.dtype("float32") else "?Empty"
     return "?" + type(x).__name__
 
 
@@ -231,6 +275,10 @@ class _Tags:
             self.tags.add("err:" + k)
             return
         c = self.cont
+        if k in ("set", "sattr"):
+            tok = op[2] if k == "set" else op[3]
+            if tok[0] not in "isa":
+                self.tags.add("value-class:" + ("v1" if tok[0] == "v" and len(tok) == 3 else tok[0]) + (":attr" if k == "sattr" else ""))
         if k in ("set", "grp", "copy", "move"):
             dst = op[2] if k in ("copy", "move") else op[1]
             for d in list(self.deleted):
@@ -421,6 +469,16 @@ L4 = ["a", "z"]
 EXOTIC = ["a.b", "..", "~", "A", "%41", "a\\b", "!", "[0]", "a=b;c", "a:b,c", "x-", "0", "~~"]
 AKEYS = ["k", "m"]
 VALS = ["i0", "i1", "i2", "i7", "i-3", "sabc", "sx", "a1.2.3", "a5", "i1000000"]
+# less usual but legal HDF5 values: opaque scalars of width 1, 2, 3 (everything around the IH5
+# deletion marker np.void(b"\x7f") except the marker itself, which IH5 refuses: C17), the marker's
+# byte under every other type (uint8, string, element of an opaque array, wider opaque), booleans,
+# empty / non-alphanumeric strings, 2-d arrays, the null dataspace
+VALS2 = ["v41", "v00", "v7e", "v80", "vff", "v7f7f", "v726177", "v7f00", "w7f", "w41.42", "u127", "u0", "h7f", "h", "h2f40", "b0", "b1",
+         "m1.2_3.4", "e"]
+
+
+def rand_val(rng):
+    return rng.choice(VALS) if rng.random() < 0.7 else rng.choice(VALS2)
 
 
 class Sim:
@@ -488,7 +546,7 @@ def rand_op(rng, sim, maxd=4):
     rel = ["rel"] if rng.random() < 0.25 else []
     if r < 0.24:
         p = rand_path(rng, maxd)
-        return ["set", p, rng.choice(VALS)] + rel
+        return ["set", p, rand_val(rng)] + rel
     if r < 0.38:
         return ["grp", rand_path(rng, maxd)] + rel
     if r < 0.54:
@@ -496,7 +554,7 @@ def rand_op(rng, sim, maxd=4):
         return ["del", p] + rel
     if r < 0.70:
         p = rng.choice(ex + ["/"]) if rng.random() < 0.85 else rand_path(rng, maxd)
-        return ["sattr", p, rng.choice(AKEYS + ([rng.choice(EXOTIC)] if rng.random() < 0.1 else [])), rng.choice(VALS)]
+        return ["sattr", p, rng.choice(AKEYS + ([rng.choice(EXOTIC)] if rng.random() < 0.1 else [])), rand_val(rng)]
     if r < 0.80:
         p = rng.choice(ex + ["/"]) if rng.random() < 0.85 else rand_path(rng, maxd)
         return ["dattr", p, rng.choice(AKEYS)]
@@ -521,7 +579,7 @@ def template(rng):
     P = "/" + rng.choice(L1)
     if rng.random() < 0.4:
         P += "/" + rng.choice(L2)
-    v = lambda: rng.choice(VALS)  # noqa: E731
+    v = lambda: rand_val(rng)  # noqa: E731
     k = rng.choice(AKEYS)
     t = rng.randrange(9)
     B = ["patch"]
@@ -628,7 +686,7 @@ def _tmp_root():
 def run(ctx):
     _tmp_root()
     ctx.rule = ("cases: operation histories (set-dataset, create-group, delete, set-attr, del-attr, copy, move, commit+create-patch boundary) over "
-                "paths of depth <= 4 on 2-3 colliding keys per level (+ exotic printable-ASCII keys), 0-6 boundaries at random positions, with the "
+                "paths of depth <= 4 on 2-3 colliding keys per level (+ exotic printable-ASCII keys), values and attribute values from int64 / uint8 / bool scalars, strings (also empty and non-alphanumeric), 1-d and 2-d int arrays, opaque scalars of width 1-3 around the deletion marker (the marker itself excluded: C17), opaque arrays and the null dataspace, 0-6 boundaries at random positions, with the "
                 "shapes named by the property spliced in as templates. Each history is applied to a real IH5Record and a real h5py.File in lock-step; "
                 "after every step outcome and full dump are compared (oracle) and both are compared with the Lean models (drv_ov). "
                 "Non-trivial = tagged: replace-then-touch across >=3 containers, delete-then-create-below, attrs on nodes of older containers, "
